@@ -532,7 +532,10 @@ func ruleSettingsValidation(c *Ctx, rule string) {
 	}
 	c.check(g, rule, w.Short(fn)+": settings expected only when advertised", w.At(first), "dominated by the server-sends-settings flag", "the settings frame is awaited unconditionally: a revision-zero server never sends one, so the tunnel hangs or mis-parses the first frame")
 	// the three malformed cases
-	type cas struct{ what string; found bool }
+	type cas struct {
+		what  string
+		found bool
+	}
 	cases := map[string]*cas{"bad stream id": {"StreamId != -1", false}, "wrong first frame": {"type assertion to settings failed", false}, "no common revision": {"supported == false", false}, "read failure": {"Recv error", false}}
 	for _, call := range callsIn(fn, func(ci ssa.CallInstruction) bool { return staticCallee(ci) == a.ChClose }) {
 		if recv != nil && dominates(recv, call) {
@@ -589,44 +592,45 @@ func ruleCloseSafety(c *Ctx, rule string) {
 				continue
 			}
 			key = "close(" + fr.String() + ") in " + w.Short(fn)
-			// (a) CAS-once
-			if g, why := c.casGuard(call, a.CSDone, 0); g {
-				if fl, ok := c.findOnceFlag(call, a.CS); ok {
-					c.ok(rule, key, w.At(call), "once: "+why+" and flag "+fl.String())
-				} else {
-					c.ok(rule, key, w.At(call), "once: "+why)
+			// the guard may sit at the close itself or, when the close lives in a helper used at exactly one place, at
+			// that place (the helper's code belongs to its user)
+			pts := w.usePoints(call)
+			done := false
+			for _, pt := range pts {
+				// (a) CAS-once
+				if g, why := c.casGuard(pt, a.CSDone, 0); g {
+					if fl, ok := c.findOnceFlag(pt, a.CS); ok {
+						c.ok(rule, key, w.At(call), "once: "+why+" and flag "+fl.String())
+					} else {
+						c.ok(rule, key, w.At(call), "once: "+why)
+					}
+					done = true
+					break
 				}
+			}
+			if done {
 				continue
 			}
 			// (b) flag under mutex
-			if nt := recvNamed(fn); nt != nil {
-				if fl, ok := c.findOnceFlag(call, nt); ok {
-					locks := perStreamLocks(lf.MustAt(call), nt)
-					if len(locks) > 0 {
-						c.onceGuardedByFlag(rule, key, call, fl, locks[0])
-						continue
+			for _, pt := range pts {
+				if nt := recvNamed(pt.Parent()); nt != nil {
+					if fl, ok := c.findOnceFlag(pt, nt); ok {
+						locks := perStreamLocks(lf.MustAt(pt), nt)
+						if len(locks) > 0 {
+							c.onceGuardedByFlag(rule, key, pt, fl, locks[0])
+							done = true
+							break
+						}
 					}
 				}
 			}
+			if done {
+				continue
+			}
 			// (c) sync.Once closure
-			if fn.Parent() != nil {
-				once := false
-				for _, s := range w.callSitesOf(fn) {
-					_ = s
-				}
-				allInstrs(fn.Parent(), func(in ssa.Instruction) {
-					if ci, ok := in.(*ssa.Call); ok && calleeName(ci) == "(*sync.Once).Do" {
-						for _, arg := range ci.Call.Args {
-							if mc, ok := arg.(*ssa.MakeClosure); ok && mc.Fn == fn {
-								once = true
-							}
-						}
-					}
-				})
-				if once {
-					c.ok(rule, key, w.At(call), "once: inside a sync.Once.Do closure")
-					continue
-				}
+			if w.onlyViaOnce(fn, 0) {
+				c.ok(rule, key, w.At(call), "once: runs only inside a sync.Once.Do function")
+				continue
 			}
 			// (d) single-spawn function, non-loop position (settings signal)
 			if fn == a.ClientLoop && !inLoop(call.Block()) {
@@ -725,17 +729,16 @@ func ruleCloseSafety(c *Ctx, rule string) {
 			}
 		}
 		// preceded by a non-blocking test of the closed signal that returns
-		tested := false
-		allInstrs(fn, func(in ssa.Instruction) {
-			if sel, ok := in.(*ssa.Select); ok && !sel.Blocking && dominates(sel, send) {
+		tested := mustPrecede(send, func(in ssa.Instruction) bool {
+			if sel, ok := in.(*ssa.Select); ok && !sel.Blocking {
 				for _, st := range sel.States {
 					if fr, _, ok := loadedField(st.Chan); ok && fr == closedF {
-						// the taken branch returns
-						tested = true
+						return true
 					}
 				}
 			}
-		})
+			return false
+		}) != nil
 		c.check(held && tested, rule, w.Short(fn)+": sends only under the ingest mutex after testing the closed signal", w.At(send), "mutex held; non-blocking closed test dominates the send", "the plain receiver's hand-off can send on a channel that close() has already closed (panic): the closed-signal test or the ingest mutex is missing")
 	}
 	for _, fn := range r.pClose {
